@@ -146,7 +146,7 @@ def parseChain : Nat → PCfg → List Stage → PState → PRes
     let (opnd, st) ← parseChain f cfg rest st
     tierLoop f cfg ops rest opnd st
   | f+1, cfg, .unary :: rest, st => do
-    let (minus, st) ← skipMinus (st.s.rest.length + 2) st false
+    let (minus, st) ← skipMinus (f+1) st false
     let (opnd, st) ← parseChain f cfg rest st
     pure (if minus then .oper "*" opnd (.num "-1") else opnd, st)
 
@@ -179,10 +179,7 @@ def parseFilterExpr : Nat → PCfg → PState → PRes
   | 0, _, _ => .error .fuel
   | f+1, cfg, st => do
     let (opnd, st) ← parsePrimary f cfg st
-    if st.s.typ == .lbracket then do
-      let (c, st) ← parsePredicate f cfg st
-      pure (.filter opnd c, st)
-    else pure (opnd, st)
+    stepPreds f cfg opnd st
 
 def parsePredicate : Nat → PCfg → PState → PRes
   | 0, _, _ => .error .fuel
@@ -307,12 +304,14 @@ def stepPreds : Nat → PCfg → Ast → PState → PRes
 
 def parseSequence : Nat → PCfg → Ast → PState → PRes
   | 0, _, _, _ => .error .fuel
-  | f+1, cfg, inp, st => do
+  | f+1, cfg, inp, st =>
+    if st.d + 1 > cfg.depthLimit then .error .tooComplex else do
+    let st := { st with d := st.d + 1 }
     let st ← st.skipItem .lparen
     let (opnd, st) ← parseStep f cfg inp st
     let (opnd, st) ← seqLoop f cfg inp opnd st
     let st ← st.skipItem .rparen
-    pure (opnd, st)
+    pure (opnd, { st with d := st.d - 1 })
 
 def seqLoop : Nat → PCfg → Ast → Ast → PState → PRes
   | 0, _, _, _, _ => .error .fuel
@@ -330,8 +329,9 @@ def parse (fuel : Nat) (cfg : PCfg) (text : List Char) : Except PErr Ast :=
   match Scan.init text with
   | .error e => .error (.scan e)
   | .ok s => do
-    let (a, _) ← parseExpression fuel cfg { s := s, d := 0 }
-    pure a
+    let (a, st) ← parseExpression fuel cfg { s := s, d := 0 }
+    -- `checkItem(r, itemEOF)`: the whole text must have been consumed
+    if st.s.typ == .eof then pure a else .error .invalidToken
 
 /-- enough for every input (`Theorems/C06`) -/
 def fuelFor (text : List Char) : Nat := 40 * (text.length + 2)
